@@ -879,6 +879,19 @@ def _save_writes(owner, sfn, rel):
     n = sum(1 for c in ast.walk(sfn) if isinstance(c, ast.Call) and is_writer(c.func))
     if n == 0:
         raise AnalysisError(f"anchor vanished: no savez / savez_compressed call in {owner}")
+    # what is written is what the sampler holds: no conversion to a narrower type on the way into the archive
+    WIDE_ = ("float", "float64", "'float64'", '"float64"', "double", "'double'", "np.float64", "numpy.float64", "'f8'", "int", "int64", "'int64'", "bool", "object")
+    narrow = []
+    for x in ast.walk(sfn):
+        if isinstance(x, ast.Call):
+            dt = next((k.value for k in x.keywords if k.arg == "dtype"), None)
+            if isinstance(x.func, ast.Attribute) and x.func.attr == "astype" and x.args:
+                dt = x.args[0]
+            if dt is not None and U(dt) not in WIDE_:
+                narrow.append(f"line {x.lineno}: `{U(x)[:70]}`")
+    if narrow:
+        return struct_ob("save-writes", owner, False, "the saved values are converted to a type that does not hold them exactly: " + "; ".join(narrow[:2])
+                         + " - the reloaded sampler continues from other numbers", rel, sfn.lineno, slots={"writer_calls": n}, tier="E")
     return struct_ob("save-writes", owner, done and not leak, "a path through save ends without writing the archive "
                      "(one arm of a branch has no savez / savez_compressed call, or a return comes first)", rel, sfn.lineno,
                      slots={"writer_calls": n}, tier="E")
